@@ -1731,6 +1731,12 @@ int parse_instruction_68000(AsmContext *asm_context, char *instr)
           token_type = tokens_get(asm_context, token, TOKENLEN);
           if (IS_TOKEN(token, ',')) { has_comma = 1; }
           else if (IS_TOKEN(token, ')')) { break; }
+          else if (token_type == TOKEN_EOL || token_type == TOKEN_EOF)
+          {
+            // No closing parenthesis on this line.
+            print_error_unexp(asm_context, token);
+            return -1;
+          }
         }
 
         if (has_comma == 0)
